@@ -83,6 +83,12 @@ impl Blob {
         writer: &mut PagedWriter<T>,
         reader: &mut dyn Read,
     ) -> Result<Self> {
+        // Sections must start at a 4-byte boundary. An earlier operation that was aborted,
+        // for example because its data source failed, can leave the writer at any position.
+        writer
+            .align()
+            .write_err("Failed to align writer before writing blob section")?;
+
         // Write temporary section header with invalid zero length
         let start_offset = writer.physical_position()?;
         let mut section_header = BlobSectionHeader { section_length: 0 };
